@@ -7,7 +7,7 @@ From Coq Require Import String.
 From Sakura.Model Require Import Base Event Utf8 Cmd Writer.
 From Sakura.Spec Require Import SmfSpec TrackSpec GmSpec Utf8Spec CmdSpec.
 From Sakura.Gen Require Import SysFuncTable VoiceTable DocTable.
-From Sakura.Proofs Require Import CmdP.
+From Sakura.Proofs Require Import WriterP CmdP.
 
 (* ============================ table theorems ============================ *)
 
@@ -101,6 +101,177 @@ Proof.
   - vm_compute. discriminate.
 Qed.
 
+(* ============================ message theorems (all values, no enumeration) ============================ *)
+(* Bytes are those of midi.rs generate_track (model/Writer.v) for the events the modelled arm adds; the decoder is
+   the SMF specification decoder (spec/SmfSpec.v).  time = the track's time pointer (first delta), ch = channel 0..15. *)
+
+(* y / CC / named controllers: Bn cc vv *)
+Theorem C15_cc_bytes : forall time ch no v, 0 <= time < 2 ^ 28 -> 0 <= ch <= 15 -> 0 <= no <= 127 -> 0 <= v <= 127 ->
+  generate_track (cmd_cc time ch no v) = Ok (push_delta time ++ [176 + ch; no; v] ++ EOT) /\
+  decode_track (push_delta time ++ [176 + ch; no; v] ++ EOT) = Some [(time, MCC ch no v); EOTmsg].
+Proof. exact cc_bytes. Qed.
+(* a named controller command runs that arm with the row's controller number (C15_cc_numbers says which) *)
+Theorem C15_named_controller : forall r st v, In r sysfuncs -> sf_type r = TkControlChangeCommand ->
+  run_command (sf_name r) st [v] [] = Ok (cmd_cc (c_time st) (c_ch st) (sf_tag1 r) v).
+Proof. exact named_controller_runs. Qed.
+
+(* @n / Voice(n): program n-1; with banks: bank select MSB on controller 0, then LSB on controller 32, then the
+   program change (this is the order of exec_voice and the order the MIDI standard requires); n is clamped to 1..128 *)
+Theorem C15_program :
+  (forall time ch n, 0 <= time < 2 ^ 28 -> 0 <= ch <= 15 -> 1 <= n <= 128 ->
+     generate_track (cmd_voice time ch [n]) = Ok (push_delta time ++ [192 + ch; n - 1] ++ EOT) /\
+     decode_track (push_delta time ++ [192 + ch; n - 1] ++ EOT) = Some [(time, MProgram ch (n - 1)); EOTmsg]) /\
+  (forall time ch n msb lsb, 0 <= time < 2 ^ 28 -> 0 <= ch <= 15 -> 1 <= n <= 128 -> 0 <= msb <= 127 -> 0 <= lsb <= 127 ->
+     generate_track (cmd_voice time ch [n; msb; lsb]) =
+       Ok (push_delta time ++ [176 + ch; 0; msb; 0; 176 + ch; 32; lsb; 0; 192 + ch; n - 1] ++ EOT) /\
+     decode_track (push_delta time ++ [176 + ch; 0; msb; 0; 176 + ch; 32; lsb; 0; 192 + ch; n - 1] ++ EOT) =
+       Some [(time, MCC ch CC_BANK_MSB msb); (0, MCC ch CC_BANK_LSB lsb); (0, MProgram ch (n - 1)); EOTmsg]) /\
+  (forall time ch n, cmd_voice time ch [n] = [ev_voice time ch (clamp 1 128 n - 1)]).
+Proof. split; [exact program_bytes | split; [exact program_bank_bytes | exact voice1_eq]]. Qed.
+
+(* Tempo: FF 51 03 tt tt tt with tttttt = 60,000,000 / bpm (big-endian) for the range 10..300 the code enforces;
+   anything outside is clamped into it *)
+Theorem C15_tempo :
+  (forall time bpm, 0 <= time < 2 ^ 28 -> 10 <= bpm <= 300 ->
+     generate_track (cmd_tempo time bpm) = Ok (push_delta time ++ [255; 81; 3] ++ tempo_payload bpm ++ EOT) /\
+     decode_track (push_delta time ++ [255; 81; 3] ++ tempo_payload bpm ++ EOT) = Some [(time, MMeta 81 (tempo_payload bpm)); EOTmsg]) /\
+  (forall bpm, 10 <= bpm <= 300 ->
+     exists a b c, tempo_payload bpm = [a; b; c] /\ 0 <= a < 256 /\ 0 <= b < 256 /\ 0 <= c < 256 /\
+                   (a * 256 + b) * 256 + c = 60000000 / bpm) /\
+  (forall time bpm, cmd_tempo time bpm = cmd_tempo time (clamp 10 300 bpm)).
+Proof. split; [exact tempo_bytes | split; [exact tempo_payload_value | exact tempo_clamps]]. Qed.
+
+(* TimeSignature(nn, dd): FF 58 04 nn log2(dd) 18 08 for numerators 2..64 and denominators 2, 4, 8, 16; other
+   numerators are clamped to 2..64, other denominators are replaced by 4 (with an error message, not modelled) *)
+Theorem C15_timesig :
+  (forall time nn dd l, 0 <= time < 2 ^ 28 -> 2 <= nn <= 64 -> log2_denominator dd = Some l ->
+     generate_track (cmd_timesig time [nn; dd]) = Ok (push_delta time ++ [255; 88; 4; nn; l; 24; 8] ++ EOT) /\
+     decode_track (push_delta time ++ [255; 88; 4; nn; l; 24; 8] ++ EOT) = Some [(time, MMeta 88 [nn; l; 24; 8]); EOTmsg]) /\
+  (forall time a0 a1, cmd_timesig time [a0; a1] = cmd_timesig time [clamp 2 64 a0; timesig_deno a1]).
+Proof. split; [exact timesig_bytes | exact timesig_clamps]. Qed.
+
+(* pitch bend: En lsb msb, 14 bits LSB first; PitchBend(v) sends v + 8192 (centre 8192 = 00 40); p(v) sends 128*v *)
+Theorem C15_bend :
+  (forall time ch v, 0 <= time < 2 ^ 28 -> 0 <= ch <= 15 -> -8192 <= v <= 8191 ->
+     let v14 := v + BEND_CENTRE in
+     generate_track (cmd_pitch_bend time ch true v) = Ok (push_delta time ++ [224 + ch; bend_lsb v14; bend_msb v14] ++ EOT) /\
+     decode_track (push_delta time ++ [224 + ch; bend_lsb v14; bend_msb v14] ++ EOT)
+       = Some [(time, MBend ch (bend_lsb v14) (bend_msb v14)); EOTmsg] /\
+     0 <= bend_lsb v14 < 128 /\ 0 <= bend_msb v14 < 128 /\ bend_lsb v14 + 128 * bend_msb v14 = v + 8192) /\
+  (forall time ch v, 0 <= time < 2 ^ 28 -> 0 <= ch <= 15 -> 0 <= v <= 127 ->
+     generate_track (cmd_pitch_bend time ch false v) = Ok (push_delta time ++ [224 + ch; 0; v] ++ EOT) /\
+     decode_track (push_delta time ++ [224 + ch; 0; v] ++ EOT) = Some [(time, MBend ch 0 v); EOTmsg]).
+Proof. split; [exact bend_big_bytes | exact bend_small_bytes]. Qed.
+
+(* RPN / NRPN: select the parameter (101,100 / 99,98: MSB then LSB), then the value on data entry (6); the named
+   commands run this with the row's address (C15_rpn_addresses says which) *)
+Theorem C15_rpn_nrpn :
+  (forall time ch m l v, 0 <= time < 2 ^ 28 -> 0 <= ch <= 15 -> 0 <= m <= 127 -> 0 <= l <= 127 -> 0 <= v <= 127 ->
+     generate_track (cmd_rpn time ch m l v) =
+       Ok (push_delta time ++ [176 + ch; 101; m; 0; 176 + ch; 100; l; 0; 176 + ch; 6; v] ++ EOT) /\
+     decode_track (push_delta time ++ [176 + ch; 101; m; 0; 176 + ch; 100; l; 0; 176 + ch; 6; v] ++ EOT) =
+       Some [(time, MCC ch CC_RPN_MSB m); (0, MCC ch CC_RPN_LSB l); (0, MCC ch CC_DATA_ENTRY v); EOTmsg]) /\
+  (forall time ch m l v, 0 <= time < 2 ^ 28 -> 0 <= ch <= 15 -> 0 <= m <= 127 -> 0 <= l <= 127 -> 0 <= v <= 127 ->
+     generate_track (cmd_nrpn time ch m l v) =
+       Ok (push_delta time ++ [176 + ch; 99; m; 0; 176 + ch; 98; l; 0; 176 + ch; 6; v] ++ EOT) /\
+     decode_track (push_delta time ++ [176 + ch; 99; m; 0; 176 + ch; 98; l; 0; 176 + ch; 6; v] ++ EOT) =
+       Some [(time, MCC ch CC_NRPN_MSB m); (0, MCC ch CC_NRPN_LSB l); (0, MCC ch CC_DATA_ENTRY v); EOTmsg]) /\
+  (forall r st v, In r sysfuncs -> sf_type r = TkRPNCommand ->
+     run_command (sf_name r) st [v] [] = Ok (cmd_rpn (c_time st) (c_ch st) (sf_tag1 r) (sf_tag2 r) v)) /\
+  (forall r st v, In r sysfuncs -> sf_type r = TkNRPNCommand ->
+     run_command (sf_name r) st [v] [] = Ok (cmd_nrpn (c_time st) (c_ch st) (sf_tag1 r) (sf_tag2 r) v)).
+Proof.
+  split; [|split; [|split; [exact named_rpn_runs | exact named_nrpn_runs]]];
+    intros; unfold CC_RPN_MSB, CC_RPN_LSB, CC_NRPN_MSB, CC_NRPN_LSB, CC_DATA_ENTRY; apply select_data_bytes; lia.
+Qed.
+
+(* Roland checksum of Event::sysex: for data `pre, -1, body, -2, post` (no marker inside pre/body) the byte written
+   for -2 makes (sum of the body bytes as written + checksum) a multiple of 128; the GS DT1 messages of the GSEffect
+   arm are exactly F0 41 dev 42 12 <address data> <checksum> F7 *)
+Theorem C15_roland_checksum :
+  (forall time pre body post, Forall (fun x => x <> -1) pre -> no_marker body ->
+     let cs := roland_checksum (map as_u8 body) in
+     ev_sysex time (pre ++ [-1] ++ body ++ [-2] ++ post) true
+       = ev_sysex_raw time (map as_u8 pre ++ map as_u8 body ++ [cs] ++ sysex_sum_loop post false (zsum body)) /\
+     0 <= cs < 128 /\ (zsum (map as_u8 body) + cs) mod 128 = 0 /\ roland_ok (map as_u8 body ++ [cs]) = true) /\
+  (forall time dev body, 0 <= dev <= 255 -> Forall (fun x => 0 <= x <= 255) body ->
+     gs_dt1 time dev body = ev_sysex_raw time (240 :: GS_DT1 dev body)).
+Proof. split; [exact roland_checksum_law | exact gs_dt1_eq]. Qed.
+
+(* resets and universal device control: the standard strings (stored with their F0; the writer emits F0 len rest) *)
+Theorem C15_resets :
+  (forall time dev,
+     cmd_sysex_reset time dev 0 = [ev_sysex_raw time (240 :: GM_SYSTEM_ON)] /\
+     cmd_sysex_reset time dev 1 = [ev_sysex_raw time (240 :: GS_RESET dev)] /\
+     cmd_sysex_reset time dev 2 = [ev_sysex_raw time (240 :: XG_SYSTEM_ON dev)]) /\
+  (forall time v, 0 <= v <= 127 -> cmd_sysex_command time 1 [v] = [ev_sysex_raw time (240 :: MASTER_VOLUME v)]) /\
+  (forall time v, -8192 <= v <= 8191 -> cmd_sysex_command time 2 [v] = [ev_sysex_raw time (240 :: MASTER_BALANCE (v + BEND_CENTRE))]) /\
+  (forall time payload, 0 <= time < 2 ^ 28 -> forallb byte_ok payload = true -> zlen payload + 1 < 2 ^ 28 ->
+     generate_track [ev_sysex_raw time (240 :: payload)] =
+       Ok (push_delta time ++ [240] ++ push_delta (zlen payload) ++ payload ++ EOT) /\
+     decode_track (push_delta time ++ [240] ++ push_delta (zlen payload) ++ payload ++ EOT) = Some [(time, MSysEx payload); EOTmsg]).
+Proof. split; [exact reset_eq | split; [exact master_volume_eq | split; [exact master_balance_eq | exact sysex_track]]]. Qed.
+
+(* text commands: the payload is the UTF-8 encoding (RFC 3629: the strict decoder gives the characters back) of a
+   prefix `kept` of the text - a whole number of characters -, shorter than 128 bytes, longest such prefix; the
+   length byte equals the payload length; on the wire FF ty len payload *)
+Theorem C15_text :
+  (forall time ty txt, Forall scalar txt ->
+     exists kept rest,
+       txt = kept ++ rest /\
+       cmd_meta_text time ty txt = [ev_meta time 255 ty (zlen (utf8 kept)) (utf8 kept)] /\
+       utf8 txt = utf8 kept ++ utf8 rest /\
+       utf8_decode (utf8 kept) = Some kept /\
+       zlen (utf8 kept) < 128 /\
+       (rest = [] \/ exists c r, rest = c :: r /\ 128 <= zlen (utf8 (kept ++ [c])))) /\
+  (forall time ty txt, 0 <= time < 2 ^ 28 -> 1 <= ty <= 7 -> Forall scalar txt ->
+     let p := utf8 (fit_below 128 txt) in
+     generate_track (cmd_meta_text time ty txt) = Ok (push_delta time ++ [255; ty; zlen p] ++ p ++ EOT) /\
+     decode_track (push_delta time ++ [255; ty; zlen p] ++ p ++ EOT) = Some [(time, MMeta ty p); EOTmsg] /\ zlen p < 128) /\
+  (forall r st txt, In r sysfuncs -> sf_type r = TkMetaText ->
+     run_command (sf_name r) st [] txt = Ok (cmd_meta_text (c_time st) (sf_tag1 r) txt)).
+Proof. split; [exact meta_text_thm | split; [exact meta_text_bytes | exact text_runs]]. Qed.
+(* the model's encoder (Rust's String::push) is the RFC's bit layout, which the strict decoder inverts *)
+Theorem C15_utf8 :
+  (forall s, utf8_encode s = utf8 s) /\ (forall s, Forall scalar s -> utf8_decode (utf8 s) = Some s).
+Proof. split; [exact utf8_encode_spec | exact utf8_roundtrip]. Qed.
+
+(* Capstone: for EVERY spelling for which the command list / the standards prescribe messages (prescription_of:
+   the row's own name or its documentation alias group) and EVERY argument tuple of the documented domain
+   (spec_msgs <> None), the command model - dispatched through the regenerated system function table - produces
+   events whose track decodes, under the SMF grammar, to exactly the prescribed messages.
+   No command is excluded. *)
+Theorem C15_model_meets_prescription : forall n p st args txt ms,
+  prescription_of n = Some p ->
+  spec_msgs p (c_ch st) (c_dev st) args txt = Some ms ->
+  0 <= c_time st < 2 ^ 28 -> 0 <= c_ch st <= 15 -> c_dev st = DEFAULT_DEVICE -> Forall scalar txt ->
+  exists evs, run_any n st args txt = Ok evs /\
+    generate_track evs = Ok (enc_track (spec_items (c_time st) ms) ++ EOT) /\
+    decode_track (enc_track (spec_items (c_time st) ms) ++ EOT) = Some (spec_items (c_time st) ms ++ [EOTmsg]).
+Proof. exact model_meets_prescription. Qed.
+(* non-vacuity of the message theorems: concrete instances inside every hypothesis *)
+Example C15_messages_example :
+  generate_track (cmd_cc 96 2 7 100) = Ok [96; 178; 7; 100; 0; 255; 47; 0] /\
+  generate_track (cmd_voice 0 0 [26; 1; 2]) = Ok [0; 176; 0; 1; 0; 176; 32; 2; 0; 192; 25; 0; 255; 47; 0] /\
+  generate_track (cmd_tempo 0 120) = Ok [0; 255; 81; 3; 7; 161; 32; 0; 255; 47; 0] /\ tempo_payload 120 = [7; 161; 32] /\
+  generate_track (cmd_timesig 0 [6; 8]) = Ok [0; 255; 88; 4; 6; 3; 24; 8; 0; 255; 47; 0] /\ log2_denominator 8 = Some 3 /\
+  generate_track (cmd_pitch_bend 0 0 true 0) = Ok [0; 224; 0; 64; 0; 255; 47; 0] /\
+  generate_track (cmd_pitch_bend 0 0 false 127) = Ok [0; 224; 0; 127; 0; 255; 47; 0] /\
+  run_command (zs "VibratoRate") (mkC 0 0 16) [64] [] = Ok (cmd_nrpn 0 0 1 8 64) /\
+  e_data (gs_dt1 0 16 [64; 1; 48; 5]) = Some [240; 65; 16; 66; 18; 64; 1; 48; 5; 10; 247] /\
+  no_marker [64; 1; 48; 5] /\
+  run_command (zs "TrackName") (mkC 0 0 16) [] [104; 105] = Ok [ev_meta 0 255 3 2 [104; 105]] /\
+  Forall scalar [104; 8364; 128512] /\ utf8 [104; 8364; 128512] = [104; 226; 130; 172; 240; 159; 152; 128] /\
+  (exists ms, prescription_of (zs "BPM") = Some PTempo /\ spec_msgs PTempo 0 16 [120] [] = Some ms /\
+              run_any (zs "BPM") (mkC 0 0 16) [120] [] = Ok [ev_meta 0 255 81 3 [7; 161; 32]]).
+Proof.
+  repeat match goal with |- _ /\ _ => split end; try (vm_compute; reflexivity).
+  - repeat constructor; lia.
+  - repeat constructor; unfold scalar; lia.
+  - eexists. split; [vm_compute; reflexivity|]. split; [vm_compute; reflexivity|].
+    vm_compute. reflexivity.
+Qed.
+
 Print Assumptions C15_cc_numbers.
 Print Assumptions C15_aliases.
 Print Assumptions C15_doc_copy_paste_not_aliases.
@@ -109,3 +280,15 @@ Print Assumptions C15_doc_commands_defined.
 Print Assumptions C15_voices.
 Print Assumptions C15_rpn_addresses.
 Print Assumptions C15_meta_types.
+Print Assumptions C15_cc_bytes.
+Print Assumptions C15_named_controller.
+Print Assumptions C15_program.
+Print Assumptions C15_tempo.
+Print Assumptions C15_timesig.
+Print Assumptions C15_bend.
+Print Assumptions C15_rpn_nrpn.
+Print Assumptions C15_roland_checksum.
+Print Assumptions C15_resets.
+Print Assumptions C15_text.
+Print Assumptions C15_utf8.
+Print Assumptions C15_model_meets_prescription.
